@@ -90,7 +90,8 @@ def run_tlc(
             res.update(generated=int(m.group(1)), distinct=int(m.group(2)), queue=int(m.group(3)))
         else:
             res.update(generated=0, distinct=0, queue=-1)
-        res["complete"] = "Model checking completed. No error has been found." in out and res["queue"] == 0
+        res["postcondition_false"] = bool(re.search(r"Postcondition \w+ .*is false", out))
+        res["complete"] = ("Model checking completed. No error has been found." in out or res["postcondition_false"]) and res["queue"] == 0
         actions: dict[str, list[int]] = {}
         for cm in _COV.finditer(out):
             name = cm.group(1)
@@ -101,6 +102,8 @@ def run_tlc(
         im = _INV.search(out)
         if im:
             viol = im.group(1)
+        elif res["postcondition_false"]:
+            viol = None
         elif "is violated" in out or "was violated" in out or "Error: Deadlock reached" in out:
             pm = re.search(r"Error: (.*(?:violated|Deadlock reached).*)", out)
             viol = pm.group(1) if pm else "unknown"
